@@ -524,10 +524,12 @@ def _expand_order_by_and_distinct_on(scope: Scope, resolver: Resolver) -> None:
             selects = {s.this: exp.column(s.alias_or_name) for s in expression.selects}
 
             for node in modifier_expressions:
+                select = selects.get(node)
                 node.replace(
                     exp.to_identifier(_select_by_pos(expression, node).alias)
                     if node.is_int
-                    else selects.get(node, node)
+                    # A copy, because the same projection can be referenced more than once
+                    else (select.copy() if select else node)
                 )
 
 
@@ -1117,8 +1119,12 @@ def _expand_stars(
                         # if it has characters that the dialect would have changed, infer that it was quoted.
                         isinstance(source, exp.Table) and dialect.case_sensitive(name)
                     )
-                    selection_expr = replaced_columns.get(name) or exp.column(
-                        name, table=table, quoted=quoted
+                    replacement = replaced_columns.get(name)
+                    selection_expr = (
+                        # A copy, because several sources of the star can have a column of this name
+                        replacement.copy()
+                        if replacement
+                        else exp.column(name, table=table, quoted=quoted)
                     )
                     new_selections.append(
                         alias(selection_expr, alias_, copy=False)
